@@ -36,7 +36,7 @@ def check(tier, seed, replay=None):
     meta = {}
     if replay:
         c = json.load(open(replay))
-        cases = [{k: c[k] for k in ("id", "sense", "obj", "cons", "dom", "text")}]
+        cases = [{k: c[k] for k in ("id", "sense", "obj", "cons", "dom", "text", "may_reject") if k in c}]
     else:
         cs, g, d = core.gen_cases(lin.SPEC_DIR, "ModelGen.tla", "GenG.cfg", "genG", workers=8)
         for i, c in enumerate(cs):
@@ -59,8 +59,14 @@ def check(tier, seed, replay=None):
         for f, m in kmeta.items():
             meta["K:" + f] = m
         meta["K:enumerable"] = {"cases": len(ks)}
+        # models around every ExprGen tree (every operator over every pair of operand kinds, chains of equal
+        # operators such as a -> b -> c): the tree as objective, as one side of a row, or as a logic assertion
+        from . import doors
+        os_ = doors.operand_models(tier, seed, meta, assoc_all=True)
+        for c in os_:
+            c["may_reject"] = True
         cases = []
-        for i, c in enumerate(cs + hs + ks):
+        for i, c in enumerate(cs + hs + ks + os_):
             style = (i + seed) % 2
             c["text"] = render.program_min(c, style=style, named=(i % 3 == 0))
             c["style"] = style
@@ -70,7 +76,7 @@ def check(tier, seed, replay=None):
     byid = {e["id"]: e for e in events}
     for r in v.rejects:
         ev = byid.get(r[2], {})
-        o.violation(f"{r[3]}:{ev.get('text')}", {k: ev.get(k) for k in ("id", "sense", "obj", "cons", "dom", "text")},
+        o.violation(f"{r[3]}:{ev.get('text')}", {k: ev.get(k) for k in ("id", "sense", "obj", "cons", "dom", "text", "may_reject") if k in ev},
                     f"{r[3]}\n{ev.get('text')}\n-> {ev.get('out')} {ev.get('kind','')} {ev.get('why','')[:200]} point={[(p['name'], p['v']['n'], p['v']['d']) for p in ev.get('point', [])]} value={ev.get('value', {}).get('n')}/{ev.get('value', {}).get('d')}")
     outs = {}
     for s in v.stats:
